@@ -94,7 +94,36 @@ theorem origin_spec (os : List Bytes) (o : Bytes) (hos : ∀ s ∈ os, toLowerAS
     matchesOrigins os o = true ↔ toLowerASCII o ∈ os :=
   Resgate.matchesOrigins_iff os o hos
 
+/-- **Refusal.** With an allow-list (not `*`), a request whose Origin header is present — even with
+    an empty value — and is neither `null` nor equal to a listed origin ignoring ASCII case is
+    refused, for HTTP (403, no service request follows) and for the WebSocket upgrade alike; every
+    other request is let through. -/
+theorem cors_refusal_iff (os : List Bytes) (origin : Option Bytes) (hstar : os.head? ≠ some bStar)
+    (hos : ∀ s ∈ os, toLowerASCII s = s) :
+    ((corsDecision os origin).refused = true ↔
+      ∃ o, origin = some o ∧ o ≠ bNull ∧ toLowerASCII o ∉ os) ∧
+    (wsOriginOK os origin = !(corsDecision os origin).refused) := by
+  have hm := fun o => Resgate.matchesOrigins_iff os o hos
+  cases origin with
+  | none => simp [corsDecision, wsOriginOK, hstar]
+  | some o =>
+    by_cases hn : o = bNull
+    · simp [corsDecision, wsOriginOK, hstar, hn]
+    · by_cases hmo : matchesOrigins os o = true
+      · have := (hm o).mp hmo
+        simp [corsDecision, wsOriginOK, hstar, hn, hmo, this]
+      · have h2 : toLowerASCII o ∉ os := fun h => hmo ((hm o).mpr h)
+        simp [corsDecision, wsOriginOK, hstar, hn, hmo, h2]
+
+/-- With `*` nothing is refused. -/
+theorem cors_star (os : List Bytes) (origin : Option Bytes) (hstar : os.head? = some bStar) :
+    (corsDecision os origin).refused = false ∧ wsOriginOK os origin = true := by
+  simp [corsDecision, wsOriginOK, hstar]
+
 /-! ### Non-vacuity -/
+
+-- an empty Origin header is refused
+example : (corsDecision [[104, 116, 116, 112, 58, 47, 47, 97]] (some [])).refused = true := by decide
 
 example : hContentType ∈ protectedNames := by decide
 example : toLowerASCII [99, 79, 110, 84, 69, 78, 84, 45, 116, 121, 112, 101] = toLowerASCII hContentType := by
